@@ -146,6 +146,9 @@ const c19scenario = `requests:
           v4: X-H|lower|replace(a,b)
           v5: X-H|substr(2,-1)
           v6: Content-Type|upper|substr(0,3)
+          v7: X-H|substr(-5,-2)
+          v8: X-H|substr(-2,-5)
+          v9: X-H|substr(3,-9)
   - name: j
     method: POST
     uri: /j
